@@ -157,7 +157,13 @@ func fieldName(t types.Type, idx int) (string, *types.Var) {
 		return "?", nil
 	}
 	owner := typeStr(t)
-	return owner + "." + st.Field(idx).Name(), st.Field(idx)
+	n := owner + "." + st.Field(idx).Name()
+	if len(fieldAlias) > 0 {
+		if a, ok := fieldAlias[n]; ok {
+			n = a // a renamed field: known to the rules under its recorded name (symbols.go)
+		}
+	}
+	return n, st.Field(idx)
 }
 
 func fieldAddrName(fa *ssa.FieldAddr) string {
